@@ -95,7 +95,7 @@ func Execute(p *Plan, tape *simrt.Tape, opt RunOpt) *RunOut {
 
 // latencyFunc builds the per-op latency function of a plan.
 func latencyFunc(l LatencyCfg, w *simrt.World) func(op *simos.OpRec) int64 {
-	if l.Kind == "" && l.StallOp == 0 {
+	if l.Kind == "" && l.StallOp == 0 && l.StallEvery == 0 {
 		return nil
 	}
 	return func(op *simos.OpRec) int64 {
@@ -116,6 +116,9 @@ func latencyFunc(l LatencyCfg, w *simrt.World) func(op *simos.OpRec) int64 {
 		if l.StallOp != 0 && op.Seq+1 == l.StallOp {
 			d += l.StallNs
 		}
+		if l.StallEvery > 0 && simrt.SplitMix(uint64(op.Seq)*2654435761+uint64(l.StallNs))%uint64(l.StallEvery) == 0 {
+			d += l.StallNs
+		}
 		return d
 	}
 }
@@ -124,7 +127,7 @@ func latencyFunc(l LatencyCfg, w *simrt.World) func(op *simos.OpRec) int64 {
 func world(p *Plan, tape *simrt.Tape, fs *simos.FS, opt RunOpt, setup func(w *simrt.World), main func()) (*simrt.World, simrt.Result) {
 	cfg := simrt.Config{
 		MaxSteps: p.Sim.MaxSteps, Strategy: p.Sim.Strategy, Trace: opt.Trace, CapturePC: opt.Trace,
-		NowQuantum: p.Sim.Quantum,
+		NowQuantum: p.Sim.Quantum, PreemptEvery: p.Sim.PreemptEvery, PreemptNs: p.Sim.PreemptNs,
 	}
 	return simrt.Run(cfg, tape, func(w *simrt.World) {
 		simos.Attach(w, fs)
